@@ -43,7 +43,7 @@ func NewStatesPaletteContainerWithData(length int, data []uint64, pat []BlocksSt
 	case 1, 2, 3, 4:
 		n = 4
 		p = &linearPalette[BlocksState]{
-			values: pat,
+			values: clonePalette(pat, n),
 			bits:   n,
 		}
 	case 5, 6, 7, 8:
@@ -53,7 +53,7 @@ func NewStatesPaletteContainerWithData(length int, data []uint64, pat []BlocksSt
 		}
 		p = &hashPalette[BlocksState]{
 			ids:    ids,
-			values: pat,
+			values: clonePalette(pat, n),
 			bits:   n,
 		}
 	default:
@@ -65,6 +65,16 @@ func NewStatesPaletteContainerWithData(length int, data []uint64, pat []BlocksSt
 		palette: p,
 		data:    NewBitStorage(n, length, data),
 	}
+}
+
+// clonePalette copies pat into a slice whose capacity is what an index of the given width can address,
+// so that the palette can never outgrow the index width (the caller's slice may have any capacity).
+func clonePalette[T State](pat []T, bits int) []T {
+	c := 1 << bits
+	if len(pat) > c {
+		c = len(pat)
+	}
+	return append(make([]T, 0, c), pat...)
 }
 
 func NewBiomesPaletteContainer(length int, defaultValue BiomesState) *PaletteContainer[BiomesState] {
@@ -84,7 +94,7 @@ func NewBiomesPaletteContainerWithData(length int, data []uint64, pat []BiomesSt
 		p = &singleValuePalette[BiomesState]{pat[0]}
 	case 1, 2, 3:
 		p = &linearPalette[BiomesState]{
-			values: pat,
+			values: clonePalette(pat, n),
 			bits:   n,
 		}
 	default:
